@@ -127,6 +127,13 @@ pub struct Finding {
     pub violation: Violation,
 }
 
+static STOP_JUDGING: std::sync::atomic::AtomicBool = std::sync::atomic::AtomicBool::new(false);
+static FINDING_WEIGHT: AtomicUsize = AtomicUsize::new(0);
+
+pub fn stopped_early() -> bool {
+    STOP_JUDGING.load(Ordering::Relaxed)
+}
+
 pub struct Worker<'a> {
     pub ctx: &'a Ctx,
     pub sb: Sandbox,
@@ -305,10 +312,25 @@ impl<'a> Worker<'a> {
 
     /// eval + record findings
     pub fn judge(&mut self, case: &Case) -> usize {
+        // a badly broken tree (every run hangs, every case fails) must not keep the check busy for
+        // hours: once enough findings have piled up (a hang weighs 25: it costs 10-70 s of CPU), the
+        // remaining cases are skipped -- the check is going to report VIOLATION either way
+        if STOP_JUDGING.load(Ordering::Relaxed) {
+            self.stats.probe("skipped:too-many-findings-already");
+            return 0;
+        }
         let v = self.eval_case(case);
         let n = v.len();
+        let mut weight = 0;
         for violation in v {
+            weight += if violation.class.starts_with("signal:hang") { 25 } else { 1 };
             self.findings.push(Finding { case: case.clone(), violation });
+        }
+        if weight > 0 {
+            let limit: usize = std::env::var("TRUSIM_MAX_FINDINGS").ok().and_then(|x| x.parse().ok()).unwrap_or(400);
+            if FINDING_WEIGHT.fetch_add(weight, Ordering::Relaxed) + weight > limit {
+                STOP_JUDGING.store(true, Ordering::Relaxed);
+            }
         }
         n
     }
